@@ -53,6 +53,8 @@ func defaultWeights() map[string]int {
 	return map[string]int{
 		"transfer": 20, "stake": 14, "unstake": 10, "withdraw": 8, "propose": 6, "vote": 8,
 		"setdoc": 4, "deploy": 4, "call": 5, "replay": 4, "raw": 3,
+		// generated contract programs (the main diet of C17) in every history
+		"deployp": 2, "callp": 5, "transferc": 1,
 	}
 }
 
@@ -81,6 +83,19 @@ func govHeavyProfile() *Profile {
 	p.W["stake"], p.W["unstake"] = 16, 10
 	p.PAbsent = 3
 	p.GovFocus = "maxValidatorCnt"
+	return p
+}
+
+// gasGovProfile: proposals that change the gas price and the minimum gas, with time for them to be applied, and
+// txs priced at the old and around the new values.
+func gasGovProfile() *Profile {
+	p := defaultProfile()
+	p.MinBlocks, p.MaxBlocks = 10, 28
+	p.MaxTxs = 8
+	p.PFault = 16
+	p.GasFaults = true
+	p.GovFocus = "gasPrice,minTrxGas"
+	p.W["propose"], p.W["vote"] = 14, 20
 	return p
 }
 
@@ -119,6 +134,11 @@ type GenSource struct {
 	sentAll [][]byte
 	fresh   [][]byte         // valid txs built against the state committed before the current block (never delivered)
 	offline map[string]int64 // validator address -> offline (not signing) up to and including this height
+	// the delegatee of the latest stake-type tx and the height it was generated for
+	lastStakeTo []byte
+	lastStakeH  int64
+	// number of parameter changes the model had seen when injections were last generated
+	paramsChangedSeen int
 	// hooks for engines that extend the schedule
 	OnEndBlock  func(w *World, b *Block)
 	hostileHook func(w *World) ([]byte, string, bool)
@@ -408,6 +428,25 @@ func (s *GenSource) genInjections(w *World, b *Block) {
 			b.Inject = append(b.Inject, Injected{Pos: posGen("freshDupPos"), Kind: "check", Tx: tx})
 		}
 	}
+	// (b') the window between EndBlock and Commit, in which whatever EndBlock decided (new parameters, a new
+	// validator set, released stakes) is staged but not yet in force: more checks there, certainly when the model
+	// says a parameter change was applied in this block
+	staged := w.Feat["params_changed"] > s.paramsChangedSeen
+	s.paramsChangedSeen = w.Feat["params_changed"]
+	if (staged && pct(t, 80, "stagedWindow")) || pct(t, 8, "endWindow") {
+		var cand [][]byte
+		cand = append(cand, s.fresh...)
+		cand = append(cand, b.Txs...)
+		if len(s.sentOK) > 0 {
+			cand = append(cand, s.sentOK[len(s.sentOK)-1])
+		}
+		for i, k := 0, 1+unif(t, 2, "nEndWindow"); i < k && len(cand) > 0; i++ {
+			b.Inject = append(b.Inject, Injected{Pos: n + 1, Kind: "check", Tx: pick(t, cand, "endWindowTx")})
+		}
+		if staged {
+			w.Feat["check_between_endblock_and_commit_of_param_change"]++
+		}
+	}
 	// (c) garbage
 	if pct(t, 30, "garbageCheck") {
 		b.Inject = append(b.Inject, Injected{Pos: posGen("garbagePos"), Kind: "check", Tx: s.genRaw(w)})
@@ -619,6 +658,13 @@ func (s *GenSource) genTx(w *World, b *Block) ([]byte, string) {
 			wts["vote"] *= 2
 		}
 	}
+	// the per-block stake limiter keeps its books per delegatee: once a stake-type tx (successful or not) went to
+	// some delegatee in this block, more stake-type txs follow, often to the same delegatee
+	burst := s.lastStakeH == h && s.lastStakeTo != nil
+	if burst {
+		wts["stake"] *= 3
+		wts["unstake"] *= 3
+	}
 	op := weighted(t, wts, "op")
 	if s.P.EarlyQuiet && h <= 1 && (op == "stake" || op == "unstake") {
 		w.Excluded["F11:staking_tx_in_block_1"]++
@@ -680,6 +726,9 @@ func (s *GenSource) genTx(w *World, b *Block) ([]byte, string) {
 		default:
 			sp.to = pick(t, s.all, "toAny").Addr
 		}
+		if burst && pct(t, 50, "sameDelegateeAgain") {
+			sp.to = s.lastStakeTo
+		}
 		units := uint64(pick(t, []int{1, 1, 2, 3, 5, 10, 50}, "units"))
 		if s.P.IsCrowd {
 			units = uint64(1 + unif(t, 3, "unitsCrowd"))
@@ -706,6 +755,7 @@ func (s *GenSource) genTx(w *World, b *Block) ([]byte, string) {
 			}
 		}
 		sp.payload = &ctypes.TrxPayloadStaking{}
+		s.lastStakeTo, s.lastStakeH = sp.to, h
 		sp.note = fmt.Sprintf("stake %s->%x amt=%s", sp.from.Name, sp.to[:4], sp.amount.Dec())
 	case "unstake":
 		sp.typ = ctypes.TRX_UNSTAKING
@@ -721,6 +771,17 @@ func (s *GenSource) genTx(w *World, b *Block) ([]byte, string) {
 			}
 			if len(own) > 0 {
 				ls = own
+			}
+		}
+		if burst && pct(t, 50, "sameDelegateeAgainU") {
+			var same []*MStake
+			for _, st := range ls {
+				if string(st.To) == string(s.lastStakeTo) {
+					same = append(same, st)
+				}
+			}
+			if len(same) > 0 {
+				ls = same
 			}
 		}
 		switch k := unif(t, 10, "unstakeKind"); {
@@ -751,6 +812,7 @@ func (s *GenSource) genTx(w *World, b *Block) ([]byte, string) {
 			id = txHashOf([]byte("keep-last-validator"))
 		}
 		sp.payload = &ctypes.TrxPayloadUnstaking{TxHash: id}
+		s.lastStakeTo, s.lastStakeH = sp.to, h
 		sp.note = fmt.Sprintf("unstake %s of %x@%x", sp.from.Name, id[:4], sp.to[:4])
 	case "withdraw":
 		sp.typ = ctypes.TRX_WITHDRAW
